@@ -40,6 +40,16 @@ def add64 (x y c : Nat) : Nat × Nat := ((x + y + c) % W, (x + y + c) / W)
 /-- `bits.Len64(x)`: minimum number of bits to represent `x` (0 for 0). -/
 def len64 (x : Nat) : Nat := if x = 0 then 0 else Nat.log2 x + 1
 
+/-- `bits.Reverse64(x)`: bit `k` of `x` (`k < 64`) moves to position `63 − k` (bits `≥ 64` of the
+    `Nat` are ignored, as the conversion `uint64(x)` does). -/
+def reverse64 (x : Nat) : Nat :=
+  (List.range 64).foldl (fun acc k => acc * 2 + (x / 2 ^ k) % 2) 0
+/-- `utils.BitReverse64(x, bitLen) = bits.Reverse64(uint64(x)) >> (64 - bitLen)` (utils/utils.go).
+    `bitLen` is a Go `int`; the shift count `64 - bitLen` is printed as the word subtraction, so a
+    `bitLen` of `-1` (two's complement `W − 1`) gives the count 65 and the result 0, as in Go.  A
+    `bitLen > 64` is a negative shift count in Go (run-time panic) and is outside the model. -/
+def bitRev64 (x bitLen : Nat) : Nat := u64shr (reverse64 x) (u64sub 64 bitLen)
+
 /-- A constant-bound `for i := 0; i < n; i++ { s = f s }`. -/
 def loopN {σ : Type} : Nat → (σ → σ) → σ → σ
   | 0, _, s => s
